@@ -128,12 +128,23 @@ Step ==
     \/ \E p \in Pats : Set(p)
     \/ Render
 
+\* EmitMode "drain": MaxLen free steps, then every block still open is left, innermost first, and the whole behaviour
+\* is emitted when the last one has been left - walks that end outside every block, whatever depth they reached
+Drain ==
+    \/ /\ Len(hist) < MaxLen
+       /\ Step
+       /\ (Len(hist') < MaxLen \/ active' # <<>> \/ Emit("beh", hist'))
+    \/ /\ Len(hist) >= MaxLen
+       /\ \E k \in {"normal", "exception"} : Exit(k)
+       /\ (active' # <<>> \/ Emit("beh", hist'))
+
 Next ==
-    /\ Len(hist) < MaxLen
-    /\ Step
-    /\ CASE EmitMode = "trans" -> Emit("beh", hist')
-         [] EmitMode = "paths" -> (Len(hist') < MaxLen \/ Emit("beh", hist'))
-         [] OTHER -> TRUE
+    IF EmitMode = "drain" THEN Drain
+    ELSE /\ Len(hist) < MaxLen
+         /\ Step
+         /\ CASE EmitMode = "trans" -> Emit("beh", hist')
+              [] EmitMode = "paths" -> (Len(hist') < MaxLen \/ Emit("beh", hist'))
+              [] OTHER -> TRUE
 
 Spec == Init /\ [][Next]_vars
 
